@@ -441,6 +441,7 @@ func cutProbes(cx *sim.Ctx, c *streamCase, toks []ref.Span, shift int, bounds []
 }
 
 func propC03(cx *sim.Ctx) {
+	sim.Declare([]string{"cut_inside_string", "cut_inside_number", "cut_inside_literal", "cut_inside_whitespace", "cut_inside_unicode_escape", "cut_between_escape_pair", "cut_right_after_backslash", "cut_after_open_quote", "cut_after_minus", "cut_after_dot", "cut_after_e", "cut_after_exp_sign", "cut_right_after_newline", "cut_between_cr_lf", "cut_inside_bom", "cut_at_4096_multiple", "cut_at_4096_in_string", "cut_at_4096_in_number", "strict_json_vs_sen", "both_error_delivered_prefix_differs"}, []string{})
 	c := drawStreamCase(cx.T, false)
 	cx.Render(c.render)
 	cx.Key(c.Input, c.Mode)
